@@ -3,7 +3,8 @@
    witnesses.  The whole-history statement is decided per run by crash-point enumeration on the real
    crate (process exit before the k-th I/O event, incl. between the index temp-file write, its
    fsync and the rename) judged by these acceptors. *)
-From W Require Import model.Base model.Engine model.EngineCfg spec.Queue spec.Crash proofs.CrashP proofs.EngineMain.
+From W Require Import model.Base model.Engine model.EngineCfg spec.Queue spec.Crash proofs.CrashP proofs.EngineWF proofs.EngineInv proofs.EngineMain
+  proofs.EngineDisk proofs.EnginePos proofs.EngineNorm proofs.EngineReopen proofs.EngineC06 proofs.EngineALO2.
 
 Theorem c09_strict_acceptor_means : forall app deliv rec,
   c09_strict_one app deliv rec 0 = true -> outs_are (deliv ++ rec) app = true.
@@ -27,6 +28,11 @@ Example c09_witness_strict :
       OBatchRead tt 10 true None; OReopen; ORead tt true])
   = [ROk; ROk; ROk; REntry (out_of (en 0 3000)); ROk; REntry (out_of (en 1 3000)); REntries [out_of (en 2 10)]; ROk; RNone].
 Proof. vm_compute. reflexivity. Qed.
+Example c09_witness_strict_outside_known :
+  outside_known (env_of small_cfg Strict Fd) init
+     [OAppend tt (en 0 3000); OAppend tt (en 1 3000); OAppend tt (en 2 10); ORead tt true; OReopen; ORead tt true;
+      OBatchRead tt 10 true None; OReopen; ORead tt true] = true.
+Proof. vm_compute. reflexivity. Qed.
 Example c09_witness_alo :
   map snd (trace (env_of small_cfg (ALO 3) Fd) init
      [OAppend tt (en 0 10); OAppend tt (en 1 10); OAppend tt (en 2 10); OAppend tt (en 3 10); OAppend tt (en 4 10);
@@ -35,7 +41,83 @@ Example c09_witness_alo :
      REntry (out_of (en 3 10)); ROk; REntry (out_of (en 3 10))].
 Proof. vm_compute. reflexivity. Qed.
 
+(* StrictlyAtOnce, crash BETWEEN two operations (the fresh process sees the disk image and the
+   persisted positions of that moment = [reopen], as argued for C07), outside the known classes
+   (block-id drift, stale provisional tail position — see props/C06.v): for every topic the consumer
+   resumes immediately behind the last entry whose consuming read had returned.  [g] is the ledger
+   of the queue specification over the history so far: l_app = acknowledged appends of the topic,
+   l_del = number of entries returned by its consuming reads.  After the restart the stream is l_app,
+   what is unread is l_app minus its first l_del entries (whichever read path hydrates the reader,
+   [x]), and the reported count is their number: nothing skipped, nothing delivered twice. *)
+Theorem c09_strict_between_operations : forall (c : Cfg) (be : backend) (ops : list op), cfg_ok c ->
+  outside_known (env_of c Strict be) init (ops ++ [OReopen]) = true ->
+  N.of_nat (length (offered_all ops)) <= u64_max -> sum_len (offered_all ops) <= u64_max ->
+  let s := exec (env_of c Strict be) init ops in
+  let g := ledger_run [] (trace (env_of c Strict be) init ops) in
+  forall t x,
+    (l_del (lget g t) <= length (l_app (lget g t)))%nat /\
+    stream (get_ts (reopen c s) t) = l_app (lget g t) /\
+    unread c (nrm x (get_ts (reopen c s) t)) = skipn (l_del (lget g t)) (l_app (lget g t)) /\
+    cnt (get_ts (reopen c s) t) = N.of_nat (length (l_app (lget g t)) - l_del (lget g t)).
+Proof. exact crash_between_operations_strict. Qed.
+
+(* and the history that goes on after the crash is accepted by the C01/C15 acceptors with the
+   crash event simply present: every later consuming read returns exactly the next entries *)
+Theorem c09_strict_resumes_exactly : forall (c : Cfg) (be : backend) (ops1 ops2 : list op), cfg_ok c ->
+  outside_known (env_of c Strict be) init (ops1 ++ OReopen :: ops2) = true ->
+  N.of_nat (length (offered_all (ops1 ++ OReopen :: ops2))) <= u64_max -> sum_len (offered_all (ops1 ++ OReopen :: ops2)) <= u64_max ->
+  c01_ok (trace (env_of c Strict be) init (ops1 ++ OReopen :: ops2)) = true /\
+  c15_ok (trace (env_of c Strict be) init (ops1 ++ OReopen :: ops2)) = true.
+Proof. exact crash_then_continue_strict. Qed.
+
+(* ANY mode — AtLeastOnce{n} in particular —, crash between two operations of a restart-free history,
+   outside the known classes: the persisted position is never AHEAD of the consumer (lagging position
+   invariant P3L, proofs/EngineP3L.v, along every history), so after the restart the stream is the
+   acknowledged stream and what the consumer will be handed starts at position k <= l_del, i.e. at
+   or before the first entry it had not been handed: entries may be delivered again, none is skipped.
+   (The bound l_del - k <= persist_every for read_next-only histories is NOT proved.) *)
+Theorem c09_alo_never_skips_between_operations : forall (c : Cfg) (m : mode) (be : backend) (ops : list op),
+  cfg_ok c -> Forall (op_ok c) ops ->
+  N.of_nat (length (offered_all ops)) <= u64_max -> sum_len (offered_all ops) <= u64_max ->
+  restart_known c (exec (env_of c m be) init ops) = false ->
+  let s := exec (env_of c m be) init ops in
+  let g := ledger_run [] (trace (env_of c m be) init ops) in
+  forall t x,
+    stream (get_ts (reopen c s) t) = l_app (lget g t) /\
+    exists k, (k <= l_del (lget g t))%nat /\
+              unread c (nrm x (get_ts (reopen c s) t)) = skipn k (l_app (lget g t)).
+Proof. exact crash_between_operations_never_skips. Qed.
+
+Example c09_witness_alo_outside_known :
+  restart_known small_cfg (exec (env_of small_cfg (ALO 3) Fd) init
+     [OAppend tt (en 0 10); OAppend tt (en 1 10); OAppend tt (en 2 10); OAppend tt (en 3 10); OAppend tt (en 4 10);
+      ORead tt true; ORead tt true; ORead tt true; ORead tt true]) = false.
+Proof. vm_compute. reflexivity. Qed.
+
 Check c09_strict_acceptor_means : forall app deliv rec,
   c09_strict_one app deliv rec 0 = true -> outs_are (deliv ++ rec) app = true.
 Print Assumptions c09_strict_acceptor_means.
 Print Assumptions c09_alo_acceptor_means.
+Check c09_strict_between_operations : forall (c : Cfg) (be : backend) (ops : list op), cfg_ok c ->
+  outside_known (env_of c Strict be) init (ops ++ [OReopen]) = true ->
+  N.of_nat (length (offered_all ops)) <= u64_max -> sum_len (offered_all ops) <= u64_max ->
+  let s := exec (env_of c Strict be) init ops in
+  let g := ledger_run [] (trace (env_of c Strict be) init ops) in
+  forall t x,
+    (l_del (lget g t) <= length (l_app (lget g t)))%nat /\
+    stream (get_ts (reopen c s) t) = l_app (lget g t) /\
+    unread c (nrm x (get_ts (reopen c s) t)) = skipn (l_del (lget g t)) (l_app (lget g t)) /\
+    cnt (get_ts (reopen c s) t) = N.of_nat (length (l_app (lget g t)) - l_del (lget g t)).
+Print Assumptions c09_strict_between_operations.
+Print Assumptions c09_strict_resumes_exactly.
+Check c09_alo_never_skips_between_operations : forall (c : Cfg) (m : mode) (be : backend) (ops : list op),
+  cfg_ok c -> Forall (op_ok c) ops ->
+  N.of_nat (length (offered_all ops)) <= u64_max -> sum_len (offered_all ops) <= u64_max ->
+  restart_known c (exec (env_of c m be) init ops) = false ->
+  let s := exec (env_of c m be) init ops in
+  let g := ledger_run [] (trace (env_of c m be) init ops) in
+  forall t x,
+    stream (get_ts (reopen c s) t) = l_app (lget g t) /\
+    exists k, (k <= l_del (lget g t))%nat /\
+              unread c (nrm x (get_ts (reopen c s) t)) = skipn k (l_app (lget g t)).
+Print Assumptions c09_alo_never_skips_between_operations.
